@@ -1,9 +1,12 @@
 package namer
 
 import (
+	"go/token"
 	"slices"
 	"strconv"
 	"strings"
+	"unicode"
+	"unicode/utf8"
 
 	"github.com/octohelm/gengo/pkg/camelcase"
 	gengotypes "github.com/octohelm/gengo/pkg/types"
@@ -79,7 +82,25 @@ func (tracker *defaultImportTracker) bind(localName string, path string) bool {
 }
 
 func toLocalName(parts ...string) string {
-	return strings.ToLower(camelcase.LowerCamelCase(strings.Join(parts, "")))
+	name := strings.ToLower(camelcase.LowerCamelCase(strings.Join(parts, "")))
+
+	// the local name must be usable as an identifier
+	name = strings.Map(func(r rune) rune {
+		if r == '_' || unicode.IsLetter(r) || unicode.IsDigit(r) {
+			return r
+		}
+		return -1
+	}, name)
+
+	if name == "" || name == "_" {
+		return "pkg"
+	}
+
+	if r, _ := utf8.DecodeRuneInString(name); unicode.IsDigit(r) || token.IsKeyword(name) {
+		return "_" + name
+	}
+
+	return name
 }
 
 func golangTrackerLocalName(pathSegments []string, n int) string {
